@@ -241,8 +241,36 @@ def install_contract(mon, on_accept=None):
             return {"text": text, "canonical": c, "recanonical": c2, "sig": sig}
         return None
 
+    def independent_results(text, result):
+        """parse is a function of the text: what a caller does to one result (queries are mutable and the library
+        itself extends them in place) must not show in the next parse of the same text"""
+        before = qstruct.query(result)
+        raw = holder["raw"]
+        try:
+            victim = raw(text)
+            segs = victim.segments
+            if segs and hasattr(segs[-1], "query") and isinstance(segs[-1].query, list):
+                segs[-1].query.append(segs[-1].query[-1] if segs[-1].query else None)
+            victim.segments = list(segs) + list(segs[-1:])
+            victim.absolute = not victim.absolute
+            again = raw(text)
+        except Exception:
+            return None
+        mon.counts["parse.independent_results"] = mon.counts.get("parse.independent_results", 0) + 1
+        try:
+            after = qstruct.query(again)
+        except Exception:
+            after = "unreadable"
+        if after != before:
+            return {"text": text, "canonical": None, "sig": "parse_results_share_state|a second parse of the same text shows what the caller did to the first result"}
+        return None
+
     def canonical_fixed_point(query, result):
         raw = holder["raw"]
+        if isinstance(query, str) and (hash(query) & 15) == 3:
+            w0 = independent_results(query, result)
+            if w0 is not None:
+                return w0
         if on_accept is not None:
             on_accept(query, result.encode(), qstruct.query(result))
         w = refute(query, result)
